@@ -136,6 +136,8 @@ type lockMonitor struct {
 	atomics  map[*Value]string
 	wsection map[*Value]int // per lock: id of the current write section
 	wroteIn  map[string]map[int]bool
+	maps     map[*MapObj]accessRule
+	on       bool
 }
 
 func (in *Interp) lockOp(p *Value, op string) {
@@ -154,6 +156,10 @@ func (in *Interp) lockOp(p *Value, op string) {
 		in.sched.lockOp(in, p, st, op)
 		return
 	}
+	in.plainLockOp(p, st, op)
+}
+
+func (in *Interp) plainLockOp(p *Value, st *lockState, op string) {
 	switch op {
 	case "Lock":
 		if st.writer || st.readers > 0 {
@@ -195,6 +201,9 @@ func (in *Interp) atomicEvent(p *Value, kind string) {
 func (m *lockMonitor) atomicSeen(in *Interp, p *Value, kind string) {}
 
 func (m *lockMonitor) access(in *Interp, p *Value, write bool) {
+	if !m.on {
+		return
+	}
 	if lbl, ok := m.atomics[p]; ok {
 		in.res.addViolationRaw("lock-discipline", "plain access to atomic cell "+lbl+" at "+in.posString())
 		return
@@ -240,13 +249,290 @@ func indexOrLen(s string, c byte) int {
 	return len(s)
 }
 
-// ---------- scheduler placeholder (C19 step 2) ----------
+// resolveField walks a dotted field path from a struct slot, dereferencing pointers, and
+// returns the slot and static type of the named field.
+func (in *Interp) resolveField(p *Value, t types.Type, path string) (*Value, types.Type) {
+	for _, seg := range strings.Split(path, ".") {
+		for {
+			pt, ok := t.Underlying().(*types.Pointer)
+			if !ok {
+				break
+			}
+			q, _ := (*p).(*Value)
+			if q == nil {
+				panic(in.unsupported("monitor: nil pointer on field path " + path))
+			}
+			p, t = q, pt.Elem()
+		}
+		st, ok := t.Underlying().(*types.Struct)
+		if !ok {
+			panic(in.unsupported("monitor: " + seg + " is not a field of a struct in path " + path))
+		}
+		sv, ok := (*p).(Struct)
+		if !ok {
+			panic(in.unsupported("monitor: struct value expected on path " + path))
+		}
+		found := false
+		for i := 0; i < st.NumFields(); i++ {
+			if st.Field(i).Name() == seg {
+				p, t = &sv.F[i], st.Field(i).Type()
+				found = true
+				break
+			}
+		}
+		if !found {
+			panic(in.unsupported("monitor: no field " + seg + " (path " + path + ") - the harness no longer matches the tree"))
+		}
+	}
+	return p, t
+}
 
-type scheduler struct{}
+func (in *Interp) ensureMonitor() *lockMonitor {
+	if in.mon == nil {
+		in.mon = &lockMonitor{rules: map[*Value]accessRule{}, atomics: map[*Value]string{}, wsection: map[*Value]int{},
+			wroteIn: map[string]map[int]bool{}, maps: map[*MapObj]accessRule{}}
+	}
+	return in.mon
+}
 
-func (s *scheduler) lockOp(in *Interp, p *Value, st *lockState, op string) {}
-func (s *scheduler) yield(in *Interp, what string)                          {}
+// allSlots lists the scalar slots below a slot (the slot itself for scalars).
+func allSlots(p *Value, out *[]*Value) {
+	switch x := (*p).(type) {
+	case Struct:
+		for i := range x.F {
+			allSlots(&x.F[i], out)
+		}
+	case Array:
+		for i := range x.E {
+			allSlots(&x.E[i], out)
+		}
+	default:
+		*out = append(*out, p)
+	}
+}
+
+// guardFields implements verif.GuardFields(obj, tag, lockField, fields...).
+func (in *Interp) guardFields(obj Iface, tag, lockField string, fields []string) {
+	pt, ok := obj.T.(*types.Pointer)
+	if !ok {
+		panic(in.unsupported("GuardFields on a non-pointer"))
+	}
+	root := obj.V.(*Value)
+	m := in.ensureMonitor()
+	var lock *Value
+	if lockField != "" {
+		lock, _ = in.resolveField(root, pt.Elem(), lockField)
+	}
+	for _, f := range fields {
+		slot, ft := in.resolveField(root, pt.Elem(), f)
+		if _, isMap := ft.Underlying().(*types.Map); isMap {
+			if mo, ok := (*slot).(*MapObj); ok && mo != nil {
+				m.maps[mo] = accessRule{lock: lock, label: tag + "." + f}
+			}
+			continue
+		}
+		var slots []*Value
+		allSlots(slot, &slots)
+		for _, sl := range slots {
+			m.rules[sl] = accessRule{lock: lock, label: tag + "." + f}
+		}
+	}
+}
+
+func (in *Interp) atomicFields(obj Iface, tag string, fields []string) {
+	pt, ok := obj.T.(*types.Pointer)
+	if !ok {
+		panic(in.unsupported("AtomicFields on a non-pointer"))
+	}
+	root := obj.V.(*Value)
+	m := in.ensureMonitor()
+	for _, f := range fields {
+		slot, _ := in.resolveField(root, pt.Elem(), f)
+		var slots []*Value
+		allSlots(slot, &slots)
+		for _, sl := range slots {
+			m.atomics[sl] = tag + "." + f
+		}
+	}
+}
+
+func (in *Interp) onMapAccess(mo *MapObj, write bool) {
+	if in.mon == nil || mo == nil || !in.mon.on {
+		return
+	}
+	r, ok := in.mon.maps[mo]
+	if !ok {
+		return
+	}
+	st := in.locks[r.lock]
+	if write {
+		if st == nil || !st.writer {
+			in.res.addViolationRaw("lock-discipline", "write to map "+r.label+" without the write lock at "+in.posString())
+		}
+	} else if st == nil || (!st.writer && st.readers == 0) {
+		in.res.addViolationRaw("lock-discipline", "read of map "+r.label+" without holding the lock at "+in.posString())
+	}
+}
+
+// ---------- cooperative scheduler (C19 step 2) ----------
+//
+// Interpreted goroutines run one at a time (baton passing between real goroutines that share
+// the interpreter). A goroutine yields before every synchronisation operation (mutex and
+// atomic operations); the scheduler then picks who continues - a decision of the path, so
+// all interleavings at synchronisation-operation granularity are explored.
+
+type threadKill struct{}
+
+type thread struct {
+	id      int
+	cl      *Closure
+	done    bool
+	started bool
+	resume  chan struct{}
+	cur     *frame
+	depth   int
+	waitFor *Value // lock the thread is blocked on
+	waitOp  string
+}
+
+type scheduler struct {
+	threads  []*thread
+	current  *thread
+	mainWake chan struct{}
+	kill     chan struct{}
+	abort    interface{}
+	running  bool
+}
 
 func (in *Interp) spawn(cl *Closure, args []Value, env []Value) {
-	panic(in.unsupported("go statement"))
+	if in.sched == nil {
+		in.sched = &scheduler{mainWake: make(chan struct{}), kill: make(chan struct{})}
+	}
+	bound := cl
+	if len(args) > 0 {
+		bound = &Closure{Fn: cl.Fn, Env: cl.Env, Intr: cl.Intr, Bound: append(append([]Value{}, cl.Bound...), args...)}
+	}
+	in.sched.threads = append(in.sched.threads, &thread{id: len(in.sched.threads), cl: bound, resume: make(chan struct{})})
+}
+
+func lockAvailable(st *lockState, op string) bool {
+	switch op {
+	case "Lock":
+		return !st.writer && st.readers == 0
+	case "RLock":
+		return !st.writer
+	}
+	return true
+}
+
+// join runs all spawned goroutines to completion under a scheduler decision at every yield.
+func (in *Interp) join() {
+	s := in.sched
+	if s == nil {
+		return
+	}
+	mainCur, mainDepth := in.cur, in.depth
+	s.running = true
+	defer func() {
+		s.running = false
+		close(s.kill)
+		in.cur, in.depth = mainCur, mainDepth
+		in.sched = nil
+	}()
+	for {
+		var runnable []*thread
+		alive := 0
+		for _, t := range s.threads {
+			if t.done {
+				continue
+			}
+			alive++
+			if t.waitFor != nil {
+				st := in.locks[t.waitFor]
+				if st != nil && !lockAvailable(st, t.waitOp) {
+					continue
+				}
+			}
+			runnable = append(runnable, t)
+		}
+		if alive == 0 {
+			return
+		}
+		if len(runnable) == 0 {
+			in.res.addViolationRaw("lock-discipline", "deadlock: every goroutine is blocked on a lock")
+			panic(&pathEnd{"deadlock"})
+		}
+		pick := 0
+		if len(runnable) > 1 {
+			tr := in.tc.BoolConst(true)
+			pick = in.decide(len(runnable), func(i int) *Term { return tr })
+		}
+		t := runnable[pick]
+		s.current = t
+		in.cur, in.depth = t.cur, t.depth
+		if !t.started {
+			t.started = true
+			go func(t *thread) {
+				defer func() {
+					if r := recover(); r != nil {
+						if _, killed := r.(threadKill); !killed {
+							s.abort = r
+						} else {
+							return
+						}
+					}
+					t.done = true
+					s.mainWake <- struct{}{}
+				}()
+				select {
+				case <-t.resume:
+				case <-s.kill:
+					panic(threadKill{})
+				}
+				in.depth = 0
+				in.cur = nil
+				in.invoke(t.cl, nil, t.cl.Env)
+			}(t)
+		}
+		t.resume <- struct{}{}
+		<-s.mainWake
+		if s.abort != nil {
+			a := s.abort
+			s.abort = nil
+			panic(a)
+		}
+	}
+}
+
+// yield hands control back to the scheduler (called by the running goroutine).
+func (s *scheduler) yield(in *Interp, what string) {
+	if !s.running || s.current == nil {
+		return
+	}
+	t := s.current
+	t.cur, t.depth = in.cur, in.depth
+	s.mainWake <- struct{}{}
+	select {
+	case <-t.resume:
+	case <-s.kill:
+		panic(threadKill{})
+	}
+	in.cur, in.depth = t.cur, t.depth
+}
+
+// lockOp is a mutex operation of an interpreted goroutine: yield first, then block while the
+// lock is unavailable.
+func (s *scheduler) lockOp(in *Interp, p *Value, st *lockState, op string) {
+	if !s.running || s.current == nil {
+		in.plainLockOp(p, st, op)
+		return
+	}
+	t := s.current
+	s.yield(in, op)
+	for !lockAvailable(st, op) {
+		t.waitFor, t.waitOp = p, op
+		s.yield(in, op+"-blocked")
+	}
+	t.waitFor = nil
+	in.plainLockOp(p, st, op)
 }
